@@ -56,8 +56,11 @@ partial def pItem : P Item := fun cs =>
   match cs with
   | 'u' :: r => do let (w, r) ← pWidth r; let (_, r) ← pChar '(' r; let (v, r) ← pNum r; let (_, r) ← pChar ')' r; some (.uint w v, r)
   | 'n' :: r => do let (w, r) ← pWidth r; let (_, r) ← pChar '(' r; let (v, r) ← pNum r; let (_, r) ← pChar ')' r; some (.negint w v, r)
-  | 'b' :: r => do let (_, r) ← pChar '(' r; let (b, r) ← pHexBytes r; let (_, r) ← pChar ')' r; some (.bytes b, r)
-  | 't' :: r => do let (_, r) ← pChar '(' r; let (b, r) ← pHexBytes r; let (_, r) ← pChar ')' r; some (.text b, r)
+  | 'b' :: r => do let (_, r) ← pChar '(' r; let (b, r) ← pStr r; let (_, r) ← pChar ')' r; some (.bytes b, r)
+  | 't' :: r => do let (_, r) ← pChar '(' r; let (b, r) ← pStr r; let (_, r) ← pChar ')' r; some (.text b, r)
+  | 'R' :: '(' :: r => do   -- a tag re-pointed from its first item to its second: denotes the tag around the second
+      let (n, r) ← pNum r; let (_, r) ← pChar ',' r; let (_, r) ← pItem r; let (_, r) ← pChar ',' r; let (y, r) ← pItem r; let (_, r) ← pChar ')' r
+      some (.tag n y, r)
   | 'B' :: '[' :: r => do let (cs, r) ← pChunks r []; some (.bytesI cs, r)
   | 'T' :: '[' :: r => do let (cs, r) ← pChunks r []; some (.textI cs, r)
   | 'A' :: '+' :: '[' :: r => do let (xs, r) ← pList r []; some (.array xs, r)   -- spare capacity: same value
@@ -73,6 +76,12 @@ partial def pItem : P Item := fun cs =>
   | 'd' :: '(' :: r => do let (v, r) ← pNum r; let (_, r) ← pChar ')' r; some (.double v, r)
   | _ => none
 where
+  /-- `hex` or `hex1>hex2` (handle set twice in place: denotes the second content) -/
+  pStr (cs : List Char) : Option (List UInt8 × List Char) := do
+    let (b, r) ← pHexBytes cs
+    match r with
+    | '>' :: r => pHexBytes r
+    | _ => some (b, r)
   pChunks (cs : List Char) (acc : List (List UInt8)) : Option (List (List UInt8) × List Char) :=
     match cs with
     | ']' :: r => some (acc.reverse, r)
@@ -87,6 +96,7 @@ where
       let (x, r) ← pItem cs
       match r with
       | '*' :: r => pList r (x :: x :: acc)     -- the same item pushed twice (shared in the C heap)
+      | '>' :: r => do let (y, r) ← pItem r; pList r (y :: acc)     -- pushed, then replaced in place: denotes the replacement
       | _ => pList r (x :: acc)
   pPairs (cs : List Char) (acc : List (Item × Item)) : Option (List (Item × Item) × List Char) :=
     match cs with
